@@ -621,6 +621,57 @@ def rule_j(model, rep):
         rep.undecided(R, "<instance-count>", f"only {n} table lookups keyed by a parsed setting found, expected at least 2")
 
 
+def rule_m(model, rep):
+    """identify() answers True or False for every str and bytes value: a codec applied to the string on the identify path (directly or in a
+    module helper it hands the string to) must be inside a handler for the UnicodeError it can raise"""
+    R = "C08.m-identify-total"
+    CATCH = ("UnicodeError", "UnicodeDecodeError", "UnicodeEncodeError", "ValueError", "Exception")
+    n = 0
+    for un, unit in model.units.items():
+        if not un.startswith(("passlib.handlers", "passlib.utils.handlers")):
+            continue
+        todo = []
+        for q, fn in unit.functions():
+            if q.split(".")[-1] == "identify":
+                ps = [a.arg for a in fn.args.args if a.arg not in ("self", "cls")]
+                if ps:
+                    todo.append((q, fn, ps[0], 0))
+        seen = set()
+        while todo:
+            q, fn, hp, depth = todo.pop()
+            if (q, hp) in seen:
+                continue
+            seen.add((q, hp))
+            n += 1
+            names = {hp}
+            for a in walk_no_nested(fn):
+                if isinstance(a, ast.Assign) and isinstance(a.value, ast.Name) and a.value.id in names:
+                    names |= {t.id for t in a.targets if isinstance(t, ast.Name)}
+            bad = []
+            for c in walk_no_nested(fn):
+                if isinstance(c, ast.Call) and isinstance(c.func, ast.Attribute) and c.func.attr in ("decode", "encode") and isinstance(c.func.value, ast.Name) and c.func.value.id in names:
+                    guarded = False
+                    cur = c
+                    while cur is not None and cur is not fn:
+                        par = unit.parent(cur)
+                        if isinstance(par, ast.Try) and any(cur is x or any(cur is y for y in ast.walk(x)) for x in par.body) and \
+                                any(h.type is None or any(k in ast.unparse(h.type) for k in CATCH) for h in par.handlers):
+                            guarded = True
+                        cur = par
+                    codec = ast.unparse(c.args[0]) if c.args else "'utf-8'"
+                    if not guarded and "latin" not in codec.lower() and "iso-8859" not in codec.lower() and not any(k.arg == "errors" for k in c.keywords):
+                        bad.append(ast.unparse(c))
+                # module helpers that receive the string
+                if isinstance(c, ast.Call) and isinstance(c.func, ast.Name) and c.args and isinstance(c.args[0], ast.Name) and c.args[0].id in names and depth < 2:
+                    callee = unit.funcs.get(c.func.id)
+                    if callee is not None and callee.args.args:
+                        todo.append((c.func.id, callee, callee.args.args[0].arg, depth + 1))
+            rep.check(not bad, R, site(un, q), "; ".join(bad) or "no unguarded codec call on the string", "decoding / encoding the candidate string on the identify path cannot raise",
+                      witness="mssql2000.identify(b'0x0100\\xff...') raises UnicodeDecodeError instead of answering False; CryptContext.identify() with that scheme listed raises too")
+    if n < 12:
+        rep.undecided(R, "<instance-count>", f"only {n} identify paths found, expected at least 12")
+
+
 def rule_d(model, rep):
     R = "C08.d-whole-digest"
     # settings parsed from a *full* hash are validated strictly; only config strings (no digest) may be clipped / truncated
@@ -730,9 +781,11 @@ def run(model, rep):
     rule_h(model, rep)
     rule_i(model, rep)
     rule_j(model, rep)
+    rule_m(model, rep)
     # fields cut at the wrong character let an altered setting through (django_des_crypt's duplicated salt, fixed-offset parsers)
     _t = HandlerTable(model)
     _c07.rule_h(model, _Renamed(rep, {"C07.h": "C08.k-slice-offsets"}, "C08.x-"), _t, _c07._handler_pairs(model, _t))
+    _c07.rule_b(model, _Renamed(rep, {"C07.b": "C08.l-settings-rendered"}, "C08.x-"), _c07._handler_pairs(model, _t), _c07._libpass_pairs(model))
     from . import shared
     shared.falsy_zero_lint(model, rep, "C08.e-zero-is-a-value", lambda un: un.startswith(("passlib.handlers", "passlib.utils.handlers")),
                            lambda un, q: q.split(".")[-1] in ("__init__", "from_string", "parse") or q.split(".")[-1].startswith(("_parse", "_norm")),
